@@ -16,7 +16,7 @@ for f in os.listdir(os.path.join(dst, "demo")) if os.path.isdir(os.path.join(dst
 if os.path.exists(os.path.join(src, "README.txt")):
     shutil.copy(os.path.join(src, "README.txt"), dst)
 json.dump({"breaks_property": prop, "seeded_for": prop, "change": change, "needs_to_manifest": needs,
-           "origin": "independent sub-agent given only the property text and a scratch worktree of /repo (round 8)",
+           "origin": "independent sub-agent given only the property text and a scratch worktree of /repo (round 11)",
            "confirmed": "tools/confirm_seed.sh in the agent's worktree: ctest 48/48 pass with the change, demo/run.sh fails with it and passes without it",
            "how_to_try": "tools/trypatch.sh seeded/%s/patch.diff %s quick" % (name, prop)}, open(os.path.join(dst, "meta.json"), "w"), indent=1)
 subprocess.run(["git", "-C", "/repo", "worktree", "remove", "--force", wt])
